@@ -568,11 +568,44 @@ func unlockSkips(m method) (bool, string) {
 		}
 		v := str(rs.Value)
 		dec := r + ".cryptoKeyPriv.Decrypt"
+		// the encrypted key may be named directly or through ONE local that is
+		// defined once, at the top level of the loop body, as `x := v.acctKeyEncrypted`
+		// and never assigned again in the loop (so it denotes the same slice)
+		names := map[string]bool{v + ".acctKeyEncrypted": true}
+		for _, st := range rs.Body.List {
+			as, ok := st.(*ast.AssignStmt)
+			if !ok || as.Tok != token.DEFINE || len(as.Lhs) != 1 || len(as.Rhs) != 1 || str(as.Rhs[0]) != v+".acctKeyEncrypted" {
+				continue
+			}
+			id, ok := as.Lhs[0].(*ast.Ident)
+			if !ok {
+				continue
+			}
+			writes := 0
+			ast.Inspect(rs.Body, func(x ast.Node) bool {
+				switch y := x.(type) {
+				case *ast.AssignStmt:
+					for _, l := range y.Lhs {
+						if str(l) == id.Name {
+							writes++
+						}
+					}
+				case *ast.UnaryExpr:
+					if y.Op == token.AND && str(y.X) == id.Name {
+						writes += 2
+					}
+				}
+				return true
+			})
+			if writes == 1 {
+				names[id.Name] = true
+			}
+		}
 		idx := -1
 		for i, st := range rs.Body.List {
 			found := false
 			ast.Inspect(st, func(x ast.Node) bool {
-				if c, ok := x.(*ast.CallExpr); ok && str(c.Fun) == dec && len(c.Args) == 1 && str(c.Args[0]) == v+".acctKeyEncrypted" {
+				if c, ok := x.(*ast.CallExpr); ok && str(c.Fun) == dec && len(c.Args) == 1 && names[str(c.Args[0])] {
 					found = true
 				}
 				return !found
@@ -592,13 +625,22 @@ func unlockSkips(m method) (bool, string) {
 		for _, st := range rs.Body.List[:idx] {
 			is, ok := st.(*ast.IfStmt)
 			if !ok {
+				if as, isAs := st.(*ast.AssignStmt); isAs && len(as.Lhs) == 1 && names[str(as.Lhs[0])] && str(as.Rhs[0]) == v+".acctKeyEncrypted" {
+					continue // the definition of the local
+				}
 				if mentions(st, "acctKeyEncrypted") {
 					die("Unlock: statement before the account key decryption mentions acctKeyEncrypted; unknown shape")
 				}
 				continue
 			}
 			c := str(is.Cond)
-			if c == "len("+v+".acctKeyEncrypted) == 0" || c == v+".acctKeyEncrypted == nil" {
+			isEmptyTest := false
+			for nm := range names {
+				if c == "len("+nm+") == 0" || c == nm+" == nil" {
+					isEmptyTest = true
+				}
+			}
+			if isEmptyTest {
 				if len(is.Body.List) == 1 && is.Else == nil {
 					if b, ok := is.Body.List[0].(*ast.BranchStmt); ok && b.Tok == token.CONTINUE {
 						skip = true
@@ -607,7 +649,21 @@ func unlockSkips(m method) (bool, string) {
 				}
 				die("Unlock: `if %s` before the account key decryption does not just `continue`", c)
 			}
-			if mentions(is, "acctKeyEncrypted") || mentions(is, "acctType") {
+			usesKey := mentions(is, "acctKeyEncrypted") || mentions(is, "acctType")
+			ast.Inspect(is, func(x ast.Node) bool {
+				switch y := x.(type) {
+				case *ast.Ident:
+					if names[y.Name] {
+						usesKey = true
+					}
+				case *ast.BranchStmt, *ast.ReturnStmt:
+					// an exit from the iteration in front of the decryption that is
+					// not the recognised emptiness test: do not guess what it skips
+					usesKey = true
+				}
+				return true
+			})
+			if usesKey {
 				die("Unlock: guard `if %s` before the account key decryption is not understood", c)
 			}
 		}
